@@ -549,7 +549,7 @@ def run(ctx):
 
 
 MANIFEST = dict(
-    text='Decides the structural necessary conditions on gdstk\'s side of the Boolean pipeline: complete and correct Operation -> ClipType table; first operand only as subject and second only as clip; non-zero fill on both; coordinates rounded with llround(scaling x value) for both axes in both orientation branches, orientation normalised from the signed area, results scaled back by 1/scaling of the same parameter; the result tree is walked completely (every outer contour, including islands inside holes, is emitted, holes linked iff present); no product of two 64-bit grid coordinates is formed in integer arithmetic; hole attachment uses the lexicographic minimum. Set-theoretic correctness inside Clipper and of the keyhole geometry is not decided.',
+    text='Decides the structural necessary conditions on gdstk\'s side of the Boolean pipeline: complete and correct Operation -> ClipType table; first operand only as subject and second only as clip; non-zero fill on both; coordinates rounded with llround(scaling x value) for both axes in both orientation branches, orientation normalised from the signed area, results scaled back by 1/scaling of the same parameter; the result tree is walked completely (every outer contour, including islands inside holes, is emitted, holes linked iff present); no product of two 64-bit grid coordinates is formed in integer arithmetic; hole attachment uses the lexicographic minimum. Set-theoretic correctness inside Clipper and of the keyhole geometry is not decided. link_holes is additionally interpreted (sa/minieval) on 45 small integer scenes - every start vertex of three contours, one or two holes from every vertex: every vertex is in the linked contour and its signed area is the contour\'s plus the holes\' (sampled scenes, not all polygons); the sort it relies on is decided by R-MODEL.sort (C20).',
     note='Trusted: clang front end, gx, sa rules; external/clipper is out of the analysed set.',
-    technique='table extraction + def-use/role rules + shape rules over typed ASTs + type-based integer-product rule',
+    technique='table extraction + def-use/role rules + shape rules over typed ASTs + type-based integer-product rule + interpretation of link_holes on enumerated integer scenes and of gdstk::sort on all small arrays (sa/minieval; sampled for link_holes)',
     design='§4 C05')
